@@ -42,7 +42,10 @@ static parsec_task_class_t tc;
 static parsec_task_t task;
 static parsec_flow_t flows[MAXF];
 static parsec_dep_t deps_in[MAXF][2];
-static parsec_dependency_t depword __attribute__((aligned(64)));
+#define NINST 32                 /* task instances (dependency words) per round in stress mode */
+static parsec_dependency_t depwords[NINST] __attribute__((aligned(64)));
+#define depword depwords[0]
+static volatile int arrived[NINST];
 
 static int32_t fn_true(const parsec_taskpool_t *p, const parsec_assignment_t *l) { (void)p; (void)l; return 1; }
 static int32_t fn_false(const parsec_taskpool_t *p, const parsec_assignment_t *l) { (void)p; (void)l; return 0; }
@@ -162,7 +165,8 @@ static void parse_scenario(const char *path)
 
 static void setup(void)
 {
-    depword = 0;
+    memset((void*)depwords, 0, sizeof(depwords));
+    memset((void*)arrived, 0, sizeof(arrived));
     memset(results, 0, sizeof(results));
 }
 
@@ -213,15 +217,31 @@ static int once(void *ctx, const unsigned char *sched, int slen, vs_run_t *r)
     return 0;
 }
 
-/* free-running mode: all threads leave a barrier together */
+/* free-running mode: persistent threads; one round = every thread performs its releases on NINST task instances
+ * (dependency words) one after the other; before touching instance k a thread waits (bounded spin, the machine
+ * may be oversubscribed) for the others to arrive there, so that the calls on one word really overlap.
+ * Events carry the instance number "k"; the check projects the round onto each instance. */
 static pthread_barrier_t gate;
-static volatile int gate2;
+static long stress_runs;
 static void *stress_thread(void *p)
 {
-    pthread_barrier_wait(&gate);
-    __sync_fetch_and_add(&gate2, 1);
-    while( gate2 < nthreads ) sched_yield();       /* tighten the start (yielding: the machine may be oversubscribed) */
-    body((int)(intptr_t)p, NULL);
+    int tid = (int)(intptr_t)p, k, j, spin;
+    long round;
+    for( round = 0; round < stress_runs; round++ ) {
+        pthread_barrier_wait(&gate);               /* the main thread has reset the dependency words */
+        for( k = 0; k < NINST; k++ ) {
+            __sync_fetch_and_add(&arrived[k], 1);
+            for( spin = 0; arrived[k] < nthreads && spin < 20000; spin++ ) ;
+            for( j = 0; j < nops[tid]; j++ ) {
+                op_t *o = &ops[tid][j];
+                int r;
+                vt_ev("\"e\":\"inv\",\"k\":%d,\"t\":%d,\"i\":%d", k, tid + 1, o->i);
+                r = tc.update_deps(&tp, &task, &depwords[k], NULL, NULL, &flows[o->f - 1]);
+                vt_ev("\"e\":\"res\",\"k\":%d,\"t\":%d,\"i\":%d,\"r\":%d", k, tid + 1, o->i, r);
+            }
+        }
+        pthread_barrier_wait(&gate);               /* everybody done: the main thread dumps the history */
+    }
     return NULL;
 }
 
@@ -230,7 +250,7 @@ int main(int argc, char **argv)
     if( argc < 6 ) die("usage");
     parse_scenario(argv[2]);
     build_task_class();
-    vt_init(1 << 12);
+    vt_init(1 << 13);
     if( vt_open(argv[4]) ) die("cannot open trace output");
     meta = fopen(argv[5], "w");
     if( !meta ) die("cannot open meta output");
@@ -254,18 +274,20 @@ int main(int argc, char **argv)
         n = vs_explore(once, NULL, atol(argv[3]));
         fprintf(meta, "{\"explored\":%ld,\"exhaustive\":%s}\n", n < 0 ? -n : n, n < 0 ? "false" : "true");
     } else if( !strcmp(argv[1], "stress") ) {
-        long runs = atol(argv[3]), k; int t;
+        long k; int t;
+        pthread_t th[MAXTHR];
+        stress_runs = atol(argv[3]);
         controlled = 0;
-        for( k = 0; k < runs; k++ ) {
-            pthread_t th[MAXTHR];
+        pthread_barrier_init(&gate, NULL, (unsigned)nthreads + 1);
+        for( t = 0; t < nthreads; t++ ) pthread_create(&th[t], NULL, stress_thread, (void*)(intptr_t)t);
+        for( k = 0; k < stress_runs; k++ ) {
             setup();
-            pthread_barrier_init(&gate, NULL, (unsigned)nthreads);
-            gate2 = 0;
-            for( t = 0; t < nthreads; t++ ) pthread_create(&th[t], NULL, stress_thread, (void*)(intptr_t)t);
-            for( t = 0; t < nthreads; t++ ) pthread_join(th[t], NULL);
-            pthread_barrier_destroy(&gate);
+            pthread_barrier_wait(&gate);
+            pthread_barrier_wait(&gate);
             finish_execution(NULL);
         }
+        for( t = 0; t < nthreads; t++ ) pthread_join(th[t], NULL);
+        pthread_barrier_destroy(&gate);
     } else die("bad mode");
     fclose(meta);
     vt_close();
